@@ -284,7 +284,7 @@ pub fn run_ifma(ctx: &Ctx) {
         type Raw = v::Raw;
         let vals = |r: &Raw| -> [Fp; 4] { [val5(&r[0]), val5(&r[1]), val5(&r[2]), val5(&r[3])] };
         let m51 = (1u64 << 51) - 1;
-        // reduced vectors: limbs <= 2^51 + 19*2^13 (what the reduction produces); unreduced: < 2^54
+        // reduced vectors: limbs <= 2^51 + 19*2^13 (what the reduction produces); unreduced: up to 16p's limbs
         let red_max = (1u64 << 51) + 19 * (1 << 13);
         let pats = |mx: u64| -> Vec<[u64; 5]> {
             vec![
@@ -311,7 +311,9 @@ pub fn run_ifma(ctx: &Ctx) {
             out
         };
         let red = combos(&pats(red_max));
-        let unr = combos(&pats((1u64 << 54) - 1));
+        // unreduced vectors feed negate_lazy / diff_sum, which compute 16p - x: limbs up to the
+        // matching limb of 16p (2^55 - 304) are inside the contract
+        let unr = combos(&pats((1u64 << 55) - 305));
         let report = |key: &str, what: String, case: serde_json::Value| ctx.violation(key, &what, case);
         let lanes_json = |r: &Raw| r.iter().map(|l| l.to_vec()).collect::<Vec<_>>();
         // reduced x reduced -> unreduced product; square; mulc; neg
